@@ -4,9 +4,10 @@ from __future__ import annotations
 import ast
 import re
 
+from sa.engine.callgraph import calls_in, resolve_call
 from sa.engine.consts import UNKNOWN
 from sa.engine.context import Ctx
-from sa.engine.loader import AnalysisError, anorm, dotted, local_names, norm, short, walk_own
+from sa.engine.loader import AnalysisError, anorm, dotted, is_noise, local_names, norm, short, walk_own
 from sa.engine.report import Finding, RuleReport
 from sa.rules.common import DT, X
 
@@ -438,6 +439,36 @@ def rule_bytes(ctx: Ctx) -> RuleReport:
                 rep.fail(Finding("C16-BYTES", EML, em.qual, f"{k.arg} from {keyc!r}", f"the attachment's {k.arg} is taken from mailparser's `{keyc}` instead of `{MP_KEYS[k.arg]}`" + (": safe_filename is a basename made safe for disk, 'Invoices 10/2024.csv' becomes '2024.csv' and the .eml and .mbox readers report different names for the same message" if k.arg == "filename" else ""), line=k.value.lineno))
     if n_ctor < 3:
         raise AnalysisError(f"C16-BYTES: only {n_ctor} functions build EmailAttachment (3 confirmed)")
+    # email.message.Message.get() returns a Header object, not a str, for a header that holds raw 8-bit bytes: every project function
+    # that is handed such a value normalises it first (a str operation on a Header raises TypeError and the mailbox is lost)
+    mbm = ctx.p.module(MBOX)
+    norm_helpers = {fi.qual for fi in mbm.functions.values() if any(isinstance(c, ast.Call) and norm(c.func) == "isinstance" and len(c.args) == 2 and "Header" in norm(c.args[1]) for c in ast.walk(fi.node))}
+    receivers = {}
+    for fi in mbm.functions.values():
+        for c in calls_in(fi):
+            for i, a in enumerate(c.args):
+                if isinstance(a, ast.Call) and isinstance(a.func, ast.Attribute) and a.func.attr == "get" and a.args and isinstance(a.args[0], ast.Constant) and isinstance(a.args[0].value, str) and a.args[0].value[:1].isupper():
+                    for g in resolve_call(ctx.p, fi, c).funcs:
+                        if g.module is mbm:
+                            receivers.setdefault(g.qual, (g, set()))[1].add(i)
+    for q, (g, idxs) in sorted(receivers.items()):
+        if q in norm_helpers:
+            rep.ok({"header_receiver": q, "handles": "Header objects itself"})
+            continue
+        params = [a_.arg for a_ in g.node.args.args]
+        for i in sorted(idxs):
+            if i >= len(params):
+                continue
+            pn = params[i]
+            first = next((st for st in g.node.body if not is_noise(st) and any(isinstance(x, ast.Name) and x.id == pn for x in ast.walk(st))), None)
+            ok_ = isinstance(first, ast.Assign) and len(first.targets) == 1 and isinstance(first.targets[0], ast.Name) and first.targets[0].id == pn and isinstance(first.value, ast.Call) \
+                and (dotted(first.value.func) or "").split(".")[-1] in norm_helpers and first.value.args and isinstance(first.value.args[0], ast.Name) and first.value.args[0].id == pn
+            if ok_:
+                rep.ok({"header_receiver": q, "normalises": norm(first)})
+            else:
+                rep.fail(Finding("C16-BYTES", MBOX, q, f"header value `{pn}` used without Header normalisation", f"{q} receives the result of message.get(<header>) and uses it as a str at once (`{short(first, 50) if first is not None else '?'}`): for a header with raw 8-bit bytes the parser hands out an email.header.Header object, str operations raise TypeError and no message of the mailbox is returned", line=g.node.lineno))
+    if len(receivers) < 3:
+        raise AnalysisError(f"C16-BYTES: only {len(receivers)} functions receive header values in the mbox reader (3 confirmed)")
     # one result per message: a header that does not parse must not take the mailbox down. email.utils.parsedate_to_datetime raises
     # TypeError for a missing and ValueError for a malformed Date; inside the per-message path of the mailbox reader it is guarded.
     mb = ctx.p.module(MBOX)
